@@ -40,3 +40,11 @@ Print Assumptions C11_at_most_one.
 Theorem C11_request_inert : forall ds f, id_pgn (f_id f) = PGN_REQUEST -> authority_recv ds f = (ds, []).
 Proof. exact c11_request_inert. Qed.
 Print Assumptions C11_request_inert.
+
+(* the premise of abstracting from time in this property's model: the code it models waits, polls and gives up
+   exactly where the model says (primitive codes in Proofs/W_*.v); re-extracted from the source on every run *)
+Require Import GV.Gen.Consts GV.Proofs.W_authority GV.Proofs.W_can GV.Proofs.W_net.
+Theorem C11_time_abstraction : waits_authority = (@nil Z) /\ waits_can = (@nil Z) /\ waits_net = (@nil Z).
+Proof. exact (conj w_authority (conj w_can w_net)). Qed.
+Check C11_time_abstraction : waits_authority = (@nil Z) /\ waits_can = (@nil Z) /\ waits_net = (@nil Z).
+Print Assumptions C11_time_abstraction.
